@@ -11,7 +11,7 @@ export GOPROXY=off GOSUMDB=off GOTOOLCHAIN=local
 # (re)build the checker when missing or older than its sources
 need=0
 [ -x "$here/bin/riecheck" ] || need=1
-if [ $need = 0 ] && [ -n "$(find "$here/checker" -name '*.go' -not -path '*/vendor/*' -newer "$here/bin/riecheck" 2>/dev/null | head -1)" ]; then need=1; fi
+if [ $need = 0 ] && [ -n "$(find "$here/checker" \( -name '*.go' -o -name 'baseline_funcs.txt' \) \( -not -path '*/vendor/*' -o -name 'verifnorm.go' \) -newer "$here/bin/riecheck" 2>/dev/null | head -1)" ]; then need=1; fi
 if [ $need = 1 ]; then "$here/setup.sh" >/dev/null || { echo "ERROR cannot build checker"; exit 2; }; fi
 if [ "$tier" = thorough ]; then
   "$here/selftest.sh" "$id" > "$here/evidence/.selftest-$id.log" 2>&1
